@@ -3,7 +3,7 @@
 Parts
 -----
 run          generated configuration (cycle history in either input style, restart point, interface stack with flags,
-             deferral, BOC halt, tight coupling with scripted convergence, direct interactAll* calls with exclusion
+             deferral, BOC halt, tight coupling with real TightCouplers on generated value sequences, direct interactAll* calls with exclusion
              lists) -> real ``Operator`` with recording interfaces; the recorded trace must equal the schedule of
              the reference model ``vp/model/schedule.py``.
 numbering    generated histories: (cycle, node) <-> cumulative node / step numbers, previous node, history lists.
@@ -39,6 +39,10 @@ ASSUMPTIONS = [
     "multi-cycle run with burnSteps 0) must make operate() raise ValueError; a power-fraction list of the wrong length "
     "is only generated when the run has a step to use it on",
     "hooks return None except the BOC hook of the halting interface (returns True)",
+    "couplers are the stock TightCoupler objects created from tightCouplingSettings; each coupled interaction changes the "
+    "interface's coupled value by 0, 0.25, 0.5, 2 or 8 tolerances (either sign; whole numbers for int values), so eps is never "
+    "within a factor 1.4 of the tolerance; the reference applies doc/user/physics_coupling.rst: |old-new| for scalars, L2 norm "
+    "for vectors, max of the row L2 norms for 2-D, converged when eps < tolerance",
     "enabled/bolForce are set through addInterface arguments and through Interface.enabled(flag)/bolForce(flag) on the "
     "object before or after it is added (also on an object that was attached with other flags and removed again); the "
     "expectation uses the final documented state (schedule.final_flags).  An object that is disabled at that moment is "
@@ -60,7 +64,7 @@ if os.environ.get("VP_C15_INCLUDE_KNOWN") == "1":  # search those shapes too (e.
     EXCLUDE_KNOWN = {k: False for k in EXCLUDE_KNOWN}
 
 POOL = ["main", "fuelHandler", "depletion", "xs", "flux", "th", "history", "database", "report"]
-VALUE_KINDS = ["float", "int", "list", "list2d", "ndarray"]
+VALUE_KINDS = list(sm.COUPLING_KINDS)
 POWER = 1.0e6
 
 REACTOR_SPEC = {
@@ -239,9 +243,10 @@ def run_strategy(draw, tier="quick"):
             "deferred": draw(_biased(2)),
             "hasFunction": draw(_biased(5)),
             "coupled": draw(_biased(5)),
-            "tol": draw(st.sampled_from([1e-6, 1e-3, 0.5])),
+            "tol": draw(st.sampled_from([1e-6, 1e-4, 1e-3, 0.05, 0.5, 2.0])),
             "valueKind": draw(st.sampled_from(VALUE_KINDS)),
-            "script": draw(st.lists(_biased(5), min_size=1, max_size=5)),
+            # change of the coupled value per coupled interaction, in tolerances: increasing, decreasing, oscillating, none
+            "factors": draw(st.lists(st.sampled_from([0.0, 0.0, 0.25, -0.25, 0.5, -0.5, 2.0, -2.0, 8.0, -8.0]), min_size=1, max_size=5)),
             # the two flags can also be set on the object itself, before or after it is added, and the object may have
             # been attached with other flags before ("enabled"/"bolForce" above are the addInterface arguments)
             "reuse": draw(st.one_of(st.none(), st.none(), st.none(), st.none(), st.none(), flag_pair)),
@@ -311,6 +316,8 @@ def normalise(case):
     for e in case["stack"]:
         e = dict(e)
         e["function"] = ("fn_" + e["name"]) if e["hasFunction"] else None
+        if "factors" not in e:  # older cases: a script of converged / not converged flags
+            e["factors"] = [0.0 if ok else 2.0 for ok in e["script"]]
         # addInterface arguments, and the flags the interface finally has (what the reference scheduler works with)
         e["addEnabled"], e["addBolForce"] = e["enabled"], e["bolForce"]
         if e["addEnabled"] and not sm.flags_before_add(e):
@@ -393,23 +400,17 @@ def armi_history_settings(h):
     return {"nCycles": h["nCycles"], "cycles": [dict(c) for c in h["cycles"]]}
 
 
-def _initial_value(kind):
+def _armi_value(kind, value):
+    """The reference model's coupled value in the type the interface hands to its TightCoupler."""
     import numpy as np
 
-    return {"float": 1.0, "int": 1, "list": [1.0, 2.0], "list2d": [[1.0, 2.0], [3.0, 4.0]],
-            "ndarray": np.array([1.0, 2.0])}[kind]
-
-
-def _bump(v, kind):
-    if kind == "float":
-        return v + 1.0
-    if kind == "int":
-        return v + 1
+    if kind == "ndarray":
+        return np.array(value)
     if kind == "list":
-        return [x + 1.0 for x in v]
+        return list(value)
     if kind == "list2d":
-        return [[x + 1.0 for x in row] for row in v]
-    return v + 1.0
+        return [list(row) for row in value]
+    return value
 
 
 def make_settings(extra):
@@ -485,7 +486,7 @@ def make_recorders(r, cs, norm, trace):
 
         def __init__(self, r, cs):
             interfaces.Interface.__init__(self, r, cs)
-            self.value = _initial_value(self.entry["valueKind"])
+            self.value = sm.coupling_initial(self.entry["valueKind"])
             self.calls = 0
 
         def _rec(self, ev, *args):
@@ -520,13 +521,13 @@ def make_recorders(r, cs, norm, trace):
         def interactCoupled(self, iteration):
             self._rec("Coupled", iteration)
             if self.entry["coupled"]:
-                script = self.entry["script"]
-                if not script[self.calls % len(script)]:
-                    self.value = _bump(self.value, self.entry["valueKind"])
+                e = self.entry
+                factor = e["factors"][self.calls % len(e["factors"])]
                 self.calls += 1
+                self.value = sm.coupling_advance(e["valueKind"], self.value, sm.coupling_step(e["valueKind"], factor, e["tol"]))
 
         def getTightCouplingValue(self):
-            return self.value
+            return _armi_value(self.entry["valueKind"], self.value)
 
         def writeDBEveryNode(self):
             self._rec("writeDB")
@@ -818,6 +819,7 @@ def run_execute(case):
             out.label("coupling:two-couplers")
         if any(c in cfg["coupling"]["skip"] for c in cycles_run):
             out.label("coupling:cycle-skipped")
+        out.label(*["coupling:not-converged-" + n for n in sorted(sched.notes)])
     names_in = set(norm["order"])
     if any(n in names_in for n in cfg["deferredNames"]):
         out.label("deferred")
@@ -964,7 +966,7 @@ PARTS = [
          rule="Hypothesis: cycle history (simple or detailed input, repeat syntax, zero-step cycles, 1/8 documented-invalid), restart "
               "point (preset or set by the first BOL hook), 1-6 recording interfaces (insert index, enabled/bolForce via addInterface "
               "arguments and/or calls on the object before/after adding and on re-added objects, reverseAtEOL, "
-              "deferred, function/coupler with scripted convergence), deferral cycle, BOC halt, tight coupling (cap, skipped cycles), "
+              "deferred, function + stock TightCoupler on a generated value sequence (scalar/list/2-D/ndarray, rising, falling, oscillating; tolerance generated)), deferral cycle, BOC halt, tight coupling (cap, skipped cycles), "
               "then up to 3 direct interactAll* calls with exclusion lists; non-trivial = trace equal AND >= 2 cycles run AND a "
               "non-default interface attribute or coupling iterations; oracle: event list of the reference scheduler, exact "
               "(floats rel 1e-10); invalid configurations must raise ValueError"),
